@@ -130,7 +130,7 @@ def gen_contents(rng, blksize, n, big=False):
 
 PROFILES = {
     # weights of operation kinds per property profile
-    "C01": dict(store=8, store_nopid=1, retrieve=5, delete=2, tag=1, div=1, hexdigest=1, smeta=1, dmeta=1, restart=1),
+    "C01": dict(store=8, store_nopid=1, retrieve=5, delete=2, tag=1, div=1, hexdigest=1, smeta=1, dmeta=1, restart=1, scribble=1),
     "C02": dict(store=8, store_nopid=1, hexdigest=6, delete=2, restart=1, retrieve=1, raw_bad=2, smeta=1),
     "C03": dict(store=7, tag=6, delete=3, div=1, store_nopid=1, retrieve=1, raw_bad=1),
     "C04": dict(store=7, delete=5, div=3, tag=2, smeta=1, dmeta=1, store_nopid=1, retrieve=2),
@@ -319,6 +319,8 @@ def gen_seq_program(seed, prof, tier="quick", mp=None, length=None):
                         "fmt": rng.choice([None, None] + list(range(len(formats))))})
         elif k == "restart":
             ops.append({"op": "restart"})
+        elif k == "scribble":
+            ops.append({"op": "scribble", "c": rng.randrange(ncont)})
         elif k == "raw_bad":
             from . import badargs
             ops.append(badargs.gen_bad(rng, npids, ncont, len(formats)))
